@@ -515,7 +515,8 @@ func (rt *runtime) convertCallParameter(v Value, t reflect.Type) (reflect.Value,
 
 						e, ok := p.value.(Value)
 						if !ok {
-							continue
+							// an accessor element: read it through [[Get]]
+							e = o.get(strconv.FormatInt(i, 10))
 						}
 
 						ev, err := rt.convertCallParameter(e, tt)
